@@ -71,6 +71,11 @@ type TagValueIterator struct {
 }
 
 func (attr *AllTagTreeReaders) tagTreeFileExists(tagKey string) bool {
+	// The file name is the tag key: a key that is not a plain file name has no tags tree
+	// (see EncodeDatapoint) and must not be resolved against the base directory.
+	if !utils.IsSimpleFileName(tagKey) {
+		return false
+	}
 	fName := attr.baseDir + tagKey
 	_, err := os.Stat(fName)
 	return err == nil
@@ -115,6 +120,10 @@ func InitAllTagsTreeReader(tagsTreeBaseDir string) (*AllTagTreeReaders, error) {
 }
 
 func (attr *AllTagTreeReaders) initTagsTreeReader(tagKey string) (*TagTreeReader, error) {
+	if !utils.IsSimpleFileName(tagKey) {
+		toLogErr := fmt.Errorf("initTagsTreeReader: tag key %q cannot name a tags tree file", tagKey)
+		return nil, utils.NewErrorWithCode(os.ErrNotExist.Error(), toLogErr)
+	}
 	fName := attr.baseDir + tagKey
 
 	fd, err := os.OpenFile(fName, os.O_RDONLY, 0644)
